@@ -79,6 +79,8 @@ func (r *Result) fail(key, what string, witness, detail any) {
 	}
 	if len(r.Failures) < maxFailuresKept {
 		r.Failures = append(r.Failures, Failure{key, what, witness, detail})
+	} else {
+		r.stat("failures_dropped")
 	}
 }
 
@@ -91,6 +93,8 @@ func (r *Result) corrFail(key, what string, witness, detail any) {
 	}
 	if len(r.CorrFail) < maxFailuresKept {
 		r.CorrFail = append(r.CorrFail, Failure{key, what, witness, detail})
+	} else {
+		r.stat("failures_dropped")
 	}
 }
 
